@@ -452,6 +452,7 @@ Definition mk_oracles (l : list (list (Z * Z * bool) * Z)) : list oracle :=
 Inductive op :=
   | OpPrefetch (file_size : Z)
   | OpSeek (o : Z)
+  | OpSeekCur (d : Z)      (* seek(d, SEEK_CUR): relative to the position the application sees (_pos) *)
   | OpRead (n : Z) (orcs : list (list (Z * Z * bool) * Z))
   | OpReadv (chunks : list (Z * Z)) (orcss : list (list (list (Z * Z * bool) * Z))).
 
@@ -491,6 +492,7 @@ Fixpoint run_ops (file : list Z) (maxreq bufsize : Z) (ops : list op) (s : state
   | [] => -9 :: enc_state s
   | OpPrefetch fs :: r => run_ops file maxreq bufsize r (flush (prefetch maxreq s fs 0))
   | OpSeek o :: r => run_ops file maxreq bufsize r (seek s o)
+  | OpSeekCur d :: r => run_ops file maxreq bufsize r (seek s (pos s + d))
   | OpRead n orcs :: r =>
       let '(s1, out) := bf_read file maxreq bufsize (mk_oracles orcs) s n in
       -1 :: enc_outcome out ++ (if is_data out then run_ops file maxreq bufsize r s1 else [-8])
